@@ -123,7 +123,8 @@ def poison(kind, v):
     if kind in ('generated', 'generatedLazy'):
         return list(v[:1]) + [Unserialisable()] + list(v[1:])
     if kind == 'listNumpy':
-        return list(v[:1]) + [np.array([Unserialisable()], dtype=object)] + list(v[1:])
+        # near the end: most of the arrays are written before the failure
+        return list(v[:-1]) + [np.array([Unserialisable()], dtype=object)] + list(v[-1:])
     raise ValueError(kind)
 
 
